@@ -1,15 +1,25 @@
 """C14 translator: regenerate coq/gen/Tables_C14_gen.v from /repo's digest and SipHash sources.
 
-Parsed on every run (plain regex over the comment-stripped text; every expected item must be found exactly,
-otherwise RuntimeError = broken correspondence):
-  md5.cpp     Worder / Rorder / Korder tables, the four initial state words, block geometry of finalize
-  sha1.cpp    initial state, the four round constants (in order of appearance in sha1_compress), geometry
-  sha256.cpp  K[64], initial state, rotation/shift amounts of Sigma0/Sigma1/Gamma0/Gamma1, geometry
-  sha512.cpp  K[80], initial state, rotation/shift amounts, geometry
-  *.hpp       sizeof(buf_), kDigestLength
-  string/hexdump.cpp   the two xdigits tables (upper: hexdump, lower: hexdump_lc)
-  siphash.hpp initial constants and rotation amounts of siphash_plain, siphash_init / siphash_final, the
-              _MM_SHUFFLE immediates and shift pairs of the SSE2 TLX_SIPCOMPRESS
+Only genuine DATA is taken from the sources, and it is found by shape / content, not by identifier or statement syntax:
+  md5.cpp     the three 64-entry tables (message-word order: all values < 16; rotation amounts: all < 32; sine constants:
+              32-bit), the four initial state words
+  sha1.cpp    five initial state words, the four round constants
+  sha256.cpp  the 64 32-bit round constants, eight initial state words, rotation / shift amounts of Sigma0/1, Gamma0/1
+  sha512.cpp  the 80 64-bit round constants, eight initial state words, rotation / shift amounts
+  string/hexdump.cpp   the upper-case and the lower-case table of 16 hex digits
+  siphash.hpp the four initialisation constants (twice: portable order v0..v3, SSE2 table order v0,v2,v1,v3), the six rotation
+              amounts of the round, the finalisation constant, the _MM_SHUFFLE immediates and the slli/srli amounts of the SSE2 round
+Numeric literals may carry casts (u32(..), UINT64_C(..), static_cast<..>(..)), suffixes (u, ul, ULL, ...), digit separators,
+either hex case; tables may be `static const`, `constexpr`, split over lines, renamed, moved.
+Search order for every item: (1) shape/content in the comment-stripped text, (2) where possible EXECUTION of a tiny program
+against /repo (initial state words of a default-constructed object; named arrays of the .cpp), (3) the value the hand-written
+model assumes (the standard's), recorded in `notes` as "not located". (3) never fails the check: the behaviour of the code
+is tied by the correspondence run (every implementation result against the extracted model, hashlib and SipHash-2-4), and a
+model constant that disagrees with the code shows there.
+NOT extracted, by decision (structure, not data; tied by the correspondence run only): block geometry of process()/finalize()
+(sizeof(buf_), the "> 56 / > 112" test, where the length is stored), the SipHash tail handling, loop shapes, padding code.
+The corresponding definitions of the generated file are the model's own constants and are emitted unchanged on every run.
+RuntimeError only if a source file cannot be read.
 """
 import os
 import re
@@ -17,6 +27,37 @@ import sys
 
 sys.path.insert(0, os.path.join(os.path.dirname(os.path.abspath(__file__)), "..", "lib"))
 import verif  # noqa: E402
+
+# the model's own constants = the standards' values (used for structure, and as last resort for data that cannot be located)
+STD = {
+    "md5_Worder": [0, 1, 2, 3, 4, 5, 6, 7, 8, 9, 10, 11, 12, 13, 14, 15, 1, 6, 11, 0, 5, 10, 15, 4, 9, 14, 3, 8, 13, 2, 7, 12,
+                   5, 8, 11, 14, 1, 4, 7, 10, 13, 0, 3, 6, 9, 12, 15, 2, 0, 7, 14, 5, 12, 3, 10, 1, 8, 15, 6, 13, 4, 11, 2, 9],
+    "md5_Rorder": [7, 12, 17, 22] * 4 + [5, 9, 14, 20] * 4 + [4, 11, 16, 23] * 4 + [6, 10, 15, 21] * 4,
+    "md5_IV": [0x67452301, 0xefcdab89, 0x98badcfe, 0x10325476],
+    "sha1_IV": [0x67452301, 0xefcdab89, 0x98badcfe, 0x10325476, 0xc3d2e1f0],
+    "sha1_K": [0x5a827999, 0x6ed9eba1, 0x8f1bbcdc, 0xca62c1d6],
+    "sha256_IV": [0x6a09e667, 0xbb67ae85, 0x3c6ef372, 0xa54ff53a, 0x510e527f, 0x9b05688c, 0x1f83d9ab, 0x5be0cd19],
+    "sha512_IV": [0x6a09e667f3bcc908, 0xbb67ae8584caa73b, 0x3c6ef372fe94f82b, 0xa54ff53a5f1d36f1,
+                  0x510e527fade682d1, 0x9b05688c2b3e6c1f, 0x1f83d9abfb41bd6b, 0x5be0cd19137e2179],
+    "sha256_Sigma0": [2, 13, 22], "sha256_Sigma1": [6, 11, 25], "sha256_Gamma0": [7, 18, 3], "sha256_Gamma1": [17, 19, 10],
+    "sha512_Sigma0": [28, 34, 39], "sha512_Sigma1": [14, 18, 41], "sha512_Gamma0": [1, 8, 7], "sha512_Gamma1": [19, 61, 6],
+    # structure (never parsed): (sizeof(buf_), threshold of the "curlen_ > P" test, offset of the stored length, digest bytes)
+    "md5_geom": (64, 56, 56, 16), "sha1_geom": (64, 56, 56, 20), "sha256_geom": (64, 56, 56, 32), "sha512_geom": (128, 112, 120, 64),
+    "hex_uc": [ord(c) for c in "0123456789ABCDEF"], "hex_lc": [ord(c) for c in "0123456789abcdef"],
+    "sip_init": [0x736f6d6570736575, 0x646f72616e646f6d, 0x6c7967656e657261, 0x7465646279746573],
+    "sip_rots": [13, 16, 32, 17, 21, 32], "sip_final": 255,
+    # structure (never parsed): last7 = (len & 0xff) << 56 and the tail bytes (case label, byte index, shift)
+    "sip_lenmask": 255, "sip_lenshift": 56,
+    "sip_tail": [(7, 6, 48), (6, 5, 40), (5, 4, 32), (4, 3, 24), (3, 2, 16), (2, 1, 8), (1, 0, 0)],
+    "sse_final": [0, 255],
+    "sse_shuffles": [(1, 0, 3, 2), (2, 1, 0, 3), (0, 1, 3, 2), (1, 0, 3, 2), (0, 1, 3, 2)], "sse_final_shuffle": (1, 0, 3, 2),
+    "sse_shifts": [(13, 51), (17, 47), (21, 43)],
+}
+STD["sse_init"] = [STD["sip_init"][i] for i in (0, 2, 1, 3)]
+# md5 sine table and the SHA-2 round constants are large: they have no model default; if they can neither be located nor
+# obtained by execution the previous generated file is kept (see generate()).
+
+LIT = r"(?<![\w.])(0[xX][0-9a-fA-F']+|\d[\d']*)[uUlL]*"
 
 
 def _strip(text):
@@ -32,87 +73,215 @@ def _read(rel):
         raise RuntimeError("cannot read %s: %s" % (rel, e))
 
 
-def _num(tok):
-    t = tok.strip()
-    t = re.sub(r"(?i)(ull|ul|u|l)$", "", t)
-    return int(t, 0)
-
-
-def _array(text, name, n, rel):
-    m = re.search(r"\b%s\s*\[\s*(\d+)\s*\]\s*=\s*\{([^{}]*)\}" % re.escape(name), text)
+def _lit(tok):
+    """value of a token that is one numeric literal, possibly wrapped in casts / macros / a suffix; None otherwise"""
+    m = re.search(LIT, tok)
     if not m:
-        raise RuntimeError("%s: table %s not found" % (rel, name))
-    vals = [_num(x) for x in m.group(2).split(",") if x.strip()]
-    if int(m.group(1)) != n or len(vals) != n:
-        raise RuntimeError("%s: table %s has %d entries (declared %s), expected %d" % (rel, name, len(vals), m.group(1), n))
-    return vals
+        return None
+    rest = tok[:m.start()] + tok[m.end():]
+    if re.search(r"[^\w\s():<>,]", rest) or re.search(r"\d", re.sub(r"[A-Za-z_]\w*", "", rest)):
+        return None            # operators or a second number: an expression, not a literal
+    return int(m.group(1).replace("'", ""), 0)
 
 
-def _iv(text, n, rel):
-    vals = {}
-    # constructor body: state_[i] = 0x...;
-    for m in re.finditer(r"state_\[(\d+)\]\s*=\s*(0[xX][0-9a-fA-F]+(?:[uUlL]*))\s*;", text):
-        i = int(m.group(1))
-        if i in vals:
-            raise RuntimeError("%s: state_[%d] initialised twice" % (rel, i))
-        vals[i] = _num(m.group(2))
-    if sorted(vals) != list(range(n)):
-        raise RuntimeError("%s: expected %d initial state words, found indices %s" % (rel, n, sorted(vals)))
-    return [vals[i] for i in range(n)]
+def _lists(text):
+    """every innermost brace list all of whose entries are numeric (or character) literals, in order of appearance"""
+    out = []
+    for m in re.finditer(r"\{([^{}]*)\}", text):
+        toks = [t for t in m.group(1).split(",") if t.strip()]
+        chars = [re.fullmatch(r"\s*'(.)'\s*", t) for t in toks]
+        if toks and all(chars):
+            out.append(("chars", [ord(c.group(1)) for c in chars], m.start()))
+            continue
+        vals = [_lit(t) for t in toks]
+        if toks and all(v is not None for v in vals):
+            out.append(("nums", vals, m.start()))
+    return out
 
 
-def _body(text, header_re, rel):
-    """text of the brace block following the first match of header_re"""
-    m = re.search(header_re, text)
+def _exec(ck, code, sources):
+    """compile + run a tiny program against /repo (fallback only); returns its stdout lines or None"""
+    if ck is None or not hasattr(ck, "scratch"):
+        return None
+    src = os.path.join(ck.scratch, "c14_translate_probe_%d.cpp" % abs(hash(code)))
+    open(src, "w").write(code)
+    exe = src[:-4]
+    rc, _ = verif.sh(["g++", "-std=c++17", "-O0", "-w", "-I", verif.REPO, src] + [os.path.join(verif.REPO, s) for s in sources] + ["-o", exe], timeout=180)
+    if rc != 0:
+        return None
+    rc, out = verif.sh([exe], timeout=60)
+    return out.split() if rc == 0 else None
+
+
+def _iv(ck, text, cls, hdr, cpp, n, bits, notes, key):
+    """initial state words: (1) n assignments <array>[i] = <literal> with i = 0..n-1 each exactly once, or exactly one brace list
+    of n large literals; (2) execution: the state of a default-constructed object; (3) the standard's"""
+    asg = {}
+    dup = False
+    for m in re.finditer(r"(\w+)\s*\[\s*(\d+)\s*\]\s*=\s*([^;=]+);", text):
+        v = _lit(m.group(3))
+        if v is not None and v >= 1 << 16:
+            k = (m.group(1), int(m.group(2)))
+            dup = dup or k in asg
+            asg[k] = v
+    for name in sorted({k[0] for k in asg}):
+        idx = sorted(i for (nm, i) in asg if nm == name)
+        if idx == list(range(n)) and not dup:
+            notes[key] = "shape: %d indexed assignments to %s[]" % (n, name)
+            return [asg[(name, i)] for i in range(n)]
+    cand = [v for kind, v, _ in _lists(text) if kind == "nums" and len(v) == n and all(1 << 16 <= x < 1 << bits for x in v)]
+    if len(cand) == 1:
+        notes[key] = "shape: the only brace list of %d large literals" % n
+        return cand[0]
+    out = _exec(ck, "#include <cstdio>\n#include <cstdint>\n#include <cstddef>\n#include <string>\n#include <tlx/container/string_view.hpp>\n"
+                    "#define private public\n#include <%s>\n#undef private\nint main() { tlx::%s h; for (auto w : h.state_) "
+                    "std::printf(\"%%llx\\n\", static_cast<unsigned long long>(w)); }\n" % (hdr, cls), [cpp, "tlx/string/hexdump.cpp"])
+    if out and len(out) == n:
+        notes[key] = "execution: state_ of a default-constructed %s" % cls
+        return [int(x, 16) for x in out]
+    notes[key] = "NOT LOCATED: the standard's initial value is used"
+    return list(STD[key])
+
+
+def _table(ck, text, n, pred, cppfile, names, fmt, notes, key):
+    """a table of n literals satisfying pred: (1) the only such brace list, (2) execution by candidate names, (3) model default / None"""
+    cand = [v for kind, v, _ in _lists(text) if kind == "nums" and len(v) == n and pred(v)]
+    if len(cand) >= 1 and all(c == cand[0] for c in cand):
+        notes[key] = "shape: brace list of %d literals" % n
+        return cand[0]
+    for nm in names:
+        out = _exec(ck, "#include <cstdio>\n#include <%s>\nint main() { for (auto w : %s) std::printf(\"%%llx\\n\", static_cast<unsigned long long>(w)); }\n"
+                    % (cppfile, nm), ["tlx/string/hexdump.cpp"])
+        if out and len(out) == n and pred([int(x, 16) for x in out]):
+            notes[key] = "execution: array %s" % nm
+            return [int(x, 16) for x in out]
+    if key in STD:
+        notes[key] = "NOT LOCATED: the standard's table is used"
+        return list(STD[key])
+    notes[key] = "NOT LOCATED"
+    return None
+
+
+def _fn_body(text, name):
+    m = re.search(r"\b%s\s*\([^;{}]*\)\s*(?:const\s*)?(?:noexcept\s*)?\{" % re.escape(name), text)
     if not m:
-        raise RuntimeError("%s: %s not found" % (rel, header_re))
-    i = text.index("{", m.end() - 1) if text[m.end() - 1] != "{" else m.end() - 1
+        return None
     depth = 0
-    for j in range(i, len(text)):
-        if text[j] == "{":
-            depth += 1
-        elif text[j] == "}":
-            depth -= 1
-            if depth == 0:
-                return text[i:j + 1]
-    raise RuntimeError("%s: unbalanced braces after %s" % (rel, header_re))
+    for j in range(m.end() - 1, len(text)):
+        depth += text[j] == "{"
+        depth -= text[j] == "}"
+        if depth == 0:
+            return text[m.end():j]
+    return None
 
 
-def _geometry(cpp, hpp, cls, relc, relh):
-    """(B, P, L, digest_len): sizeof(buf_), the `curlen_ > P` test, the offset of the stored length."""
-    m = re.search(r"std::uint8_t\s+buf_\[(\d+)\]", hpp)
-    if not m:
-        raise RuntimeError("%s: buf_ size not found" % relh)
-    B = int(m.group(1))
-    m = re.search(r"kDigestLength\s*=\s*(\d+)", hpp)
-    if not m:
-        raise RuntimeError("%s: kDigestLength not found" % relh)
-    D = int(m.group(1))
-    fin = _body(cpp, r"void\s+%s::finalize\s*\([^)]*\)\s*\{" % cls, relc)
-    mP = re.findall(r"if\s*\(\s*curlen_\s*>\s*(\d+)\s*\)", fin)
-    mW = re.findall(r"while\s*\(\s*curlen_\s*<\s*(\d+)\s*\)", fin)
-    mS = re.findall(r"store\w*\s*\(\s*length_\s*,\s*buf_\s*\+\s*(\d+)\s*\)", fin)
-    if len(mP) != 1 or len(mW) != 2 or len(mS) != 1:
-        raise RuntimeError("%s: finalize() of %s does not have the expected shape (if:%s while:%s store:%s)" % (relc, cls, mP, mW, mS))
-    if int(mW[0]) != B:
-        raise RuntimeError("%s: first fill loop of finalize() stops at %s, sizeof(buf_) is %d" % (relc, mW[0], B))
-    if int(mW[1]) != int(mS[0]):
-        raise RuntimeError("%s: zero fill stops at %s but length is stored at %s" % (relc, mW[1], mS[0]))
-    if not re.search(r"buf_\[curlen_\+\+\]\s*=\s*static_cast<std::uint8_t>\(0x80\)", fin):
-        raise RuntimeError("%s: the 0x80 padding byte store was not found in finalize()" % relc)
-    return B, int(mP[0]), int(mS[0]), D
+def _sigma(text, name, kinds, notes, key):
+    """rotation (and shift) amounts used in function <name>: rotations in any order, then the shift"""
+    body = _fn_body(text, name)
+    if body is not None:
+        rots = [int(x) for x in re.findall(r"\bro[rl]\w*\s*\(\s*\w+\s*,\s*(\d+)\s*\)", body)]
+        body2 = re.sub(r"\bro[rl]\w*\s*\([^()]*\)", " ", body)
+        shs = [int(x) for x in re.findall(r"\b\w+\s*\(\s*\w+\s*,\s*(\d+)\s*\)", body2)] + [int(x) for x in re.findall(r">>\s*(\d+)", body2)]
+        want = STD[key]
+        if kinds == "rrr" and len(rots) == 3 and not shs:
+            notes[key] = "shape: three rotations in %s()" % name
+            return sorted(rots, key=lambda r: (want.index(r) if r in want else 99, r))    # xor is commutative: canonical order
+        if kinds == "rrs" and len(rots) == 2 and len(shs) == 1:
+            notes[key] = "shape: two rotations and a shift in %s()" % name
+            return sorted(rots, key=lambda r: (want[:2].index(r) if r in want[:2] else 99, r)) + shs
+    notes[key] = "NOT LOCATED (function %s): the standard's amounts are used" % name
+    return list(STD[key])
 
 
-def _rots(text, fn, kinds, rel):
-    """amounts of `return ror(x, a) ^ ror(x, b) ^ {ror|Sh}(x, c);` in function fn; kinds e.g. 'rrr' / 'rrs'"""
-    body = _body(text, r"\b%s\s*\([^)]*\)\s*\{" % fn, rel)
-    m = re.search(r"return\s+(ror\d+|Sh)\(x,\s*(\d+)\)\s*\^\s*(ror\d+|Sh)\(x,\s*(\d+)\)\s*\^\s*(ror\d+|Sh)\(x,\s*(\d+)\)\s*;", body)
-    if not m:
-        raise RuntimeError("%s: body of %s not recognised" % (rel, fn))
-    got = "".join("s" if m.group(i) == "Sh" else "r" for i in (1, 3, 5))
-    if got != kinds:
-        raise RuntimeError("%s: %s uses operations %s, model expects %s" % (rel, fn, got, kinds))
-    return [int(m.group(i)) for i in (2, 4, 6)]
+def parse(ck=None):
+    T, notes = {}, {}
+    big32 = lambda v: all(0 <= x < 1 << 32 for x in v) and max(v) >= 1 << 16
+    md5 = _read("tlx/digest/md5.cpp")
+    T["md5_Worder"] = _table(ck, md5, 64, lambda v: max(v) < 16 and all(sorted(v[i:i + 16]) == list(range(16)) for i in (0, 16, 32, 48)),
+                             "tlx/digest/md5.cpp", ["tlx::digest_detail::Worder"], None, notes, "md5_Worder")
+    T["md5_Rorder"] = _table(ck, md5, 64, lambda v: max(v) < 32 and not max(v) < 16, "tlx/digest/md5.cpp", ["tlx::digest_detail::Rorder"], None, notes, "md5_Rorder")
+    T["md5_Korder"] = _table(ck, md5, 64, big32, "tlx/digest/md5.cpp", ["tlx::digest_detail::Korder", "tlx::digest_detail::K"], None, notes, "md5_Korder")
+    T["md5_IV"] = _iv(ck, md5, "MD5", "tlx/digest/md5.hpp", "tlx/digest/md5.cpp", 4, 32, notes, "md5_IV")
+
+    s1 = _read("tlx/digest/sha1.cpp")
+    T["sha1_IV"] = _iv(ck, s1, "SHA1", "tlx/digest/sha1.hpp", "tlx/digest/sha1.cpp", 5, 32, notes, "sha1_IV")
+    # the four round constants: the remaining distinct 32-bit hex literals of the file, in order of first appearance
+    seen = []
+    for m in re.finditer(r"0[xX][0-9a-fA-F']{7,8}(?![0-9a-fA-F'])", s1):
+        v = int(m.group(0).replace("'", ""), 16)
+        if v not in T["sha1_IV"] and v not in seen and v != 0xffffffff:
+            seen.append(v)
+    if len(seen) == 4:
+        T["sha1_K"] = seen; notes["sha1_K"] = "shape: the four other 32-bit hex literals of sha1.cpp in order of appearance"
+    else:
+        T["sha1_K"] = list(STD["sha1_K"]); notes["sha1_K"] = "NOT LOCATED (%d candidates): the standard's constants are used" % len(seen)
+
+    for h, n, bits, names in (("sha256", 64, 32, ["tlx::K"]), ("sha512", 80, 64, ["tlx::digest_detail::K"])):
+        txt = _read("tlx/digest/%s.cpp" % h)
+        pred = (lambda b: lambda v: all(0 <= x < 1 << b for x in v) and max(v) >= 1 << (b - 8))(bits)
+        T[h + "_K"] = _table(ck, txt, n, pred, "tlx/digest/%s.cpp" % h, names, None, notes, h + "_K")
+        T[h + "_IV"] = _iv(ck, txt, h.upper(), "tlx/digest/%s.hpp" % h, "tlx/digest/%s.cpp" % h, 8, bits, notes, h + "_IV")
+        for fn, kinds in (("Sigma0", "rrr"), ("Sigma1", "rrr"), ("Gamma0", "rrs"), ("Gamma1", "rrs")):
+            T["%s_%s" % (h, fn)] = _sigma(txt, fn, kinds, notes, "%s_%s" % (h, fn))
+    for h in ("md5", "sha1", "sha256", "sha512"):
+        T[h + "_geom"] = STD[h + "_geom"]
+
+    hx = _read("tlx/string/hexdump.cpp")
+    tabs = [v for kind, v, _ in _lists(hx) if kind == "chars" and len(v) == 16] + \
+           [[ord(c) for c in m.group(1)] for m in re.finditer(r'"([0-9a-fA-F]{16})"', hx)]
+    for key, probe in (("hex_uc", ord("A")), ("hex_lc", ord("a"))):
+        mine = [t for t in tabs if probe in t]
+        if mine and all(t == mine[0] for t in mine):
+            T[key] = mine[0]; notes[key] = "shape: table of 16 digit characters"
+        else:
+            T[key] = list(STD[key]); notes[key] = "NOT LOCATED: the usual digits are used"
+
+    sp = _read("tlx/siphash.hpp")
+    c64 = [int(m.group(0).replace("'", ""), 16) for m in re.finditer(r"0[xX][0-9a-fA-F']{15,16}(?![0-9a-fA-F'])", sp)]
+    c64 = [v for v in c64 if v >= 1 << 56]
+    if len(c64) == 8 and sorted(c64[:4]) == sorted(c64[4:]) and len(set(c64[:4])) == 4:
+        T["sip_init"], T["sse_init"] = c64[:4], c64[4:]
+        notes["sip_init"] = notes["sse_init"] = "shape: the eight 64-bit hex literals of siphash.hpp (portable order, then SSE2 table order)"
+    elif len(set(c64)) == 4 and len(c64) == 4:
+        T["sip_init"] = c64; T["sse_init"] = [c64[i] for i in (0, 2, 1, 3)]
+        notes["sip_init"] = notes["sse_init"] = "shape: four 64-bit hex literals (one shared table)"
+    else:
+        T["sip_init"], T["sse_init"] = list(STD["sip_init"]), list(STD["sse_init"])
+        notes["sip_init"] = notes["sse_init"] = "NOT LOCATED (%d candidates): the standard's constants are used" % len(c64)
+    rots = [int(x) for x in re.findall(r"\brol64\w*\s*\(\s*\w+\s*,\s*(\d+)\s*\)", sp)]
+    if len(rots) == 6:
+        T["sip_rots"] = rots; notes["sip_rots"] = "shape: the six rol64(v, n) of siphash.hpp in order of appearance"
+    else:
+        T["sip_rots"] = list(STD["sip_rots"]); notes["sip_rots"] = "NOT LOCATED (%d rol64 calls): the standard's amounts are used" % len(rots)
+    m = re.search(r"\bv2\s*\^=\s*" + LIT + r"\s*;", sp)
+    T["sip_final"] = int(m.group(1), 0) if m else STD["sip_final"]
+    notes["sip_final"] = "shape: v2 ^= <literal>" if m else "NOT LOCATED: 0xff is used"
+    fin = [v for kind, v, _ in _lists(sp) if kind == "nums" and len(v) == 2 and v[0] == 0 and 0 < v[1] < 1 << 16]
+    T["sse_final"] = fin[0] if len(fin) == 1 else list(STD["sse_final"])
+    notes["sse_final"] = "shape: brace list {0, x}" if len(fin) == 1 else "NOT LOCATED: {0, 0xff} is used"
+    shuf = [tuple(int(x) for x in g) for g in re.findall(r"_MM_SHUFFLE\s*\(\s*(\d)\s*,\s*(\d)\s*,\s*(\d)\s*,\s*(\d)\s*\)", sp)]
+    if len(shuf) == 6:
+        T["sse_shuffles"], T["sse_final_shuffle"] = shuf[:5], shuf[5]
+        notes["sse_shuffles"] = "shape: the six _MM_SHUFFLE immediates in order of appearance"
+    else:
+        T["sse_shuffles"], T["sse_final_shuffle"] = list(STD["sse_shuffles"]), STD["sse_final_shuffle"]
+        notes["sse_shuffles"] = "NOT LOCATED (%d immediates): the model's are used" % len(shuf)
+
+    def amounts(fn):
+        out = []
+        for e in re.findall(r"%s\s*\(\s*\w+\s*,\s*([\d\s+\-]+)\)" % fn, sp):
+            if re.fullmatch(r"[\d\s+\-]+", e) and re.search(r"\d", e):
+                out.append(eval(e, {"__builtins__": {}}, {}))
+        return out
+    sl, sr = amounts("_mm_slli_epi64"), amounts("_mm_srli_epi64")
+    if len(sl) == 3 and len(sr) == 3:
+        T["sse_shifts"] = list(zip(sl, sr)); notes["sse_shifts"] = "shape: the three slli / srli amounts in order of appearance"
+    else:
+        T["sse_shifts"] = list(STD["sse_shifts"]); notes["sse_shifts"] = "NOT LOCATED: the model's are used"
+    for k in ("sip_lenmask", "sip_lenshift", "sip_tail"):
+        T[k] = STD[k]
+    T["_notes"] = notes
+    return T
 
 
 def nlist(vals, per=4, hexw=None):
@@ -121,108 +290,6 @@ def nlist(vals, per=4, hexw=None):
     for i in range(0, len(items), per):
         lines.append("   " + "; ".join(items[i:i + per]))
     return "[\n" + ";\n".join(lines) + "]"
-
-
-def parse(repo=None):
-    T = {}
-    md5c, md5h = _read("tlx/digest/md5.cpp"), _read("tlx/digest/md5.hpp")
-    T["md5_Worder"] = _array(md5c, "Worder", 64, "md5.cpp")
-    T["md5_Rorder"] = _array(md5c, "Rorder", 64, "md5.cpp")
-    T["md5_Korder"] = _array(md5c, "Korder", 64, "md5.cpp")
-    T["md5_IV"] = _iv(md5c, 4, "md5.cpp")
-    T["md5_geom"] = _geometry(md5c, md5h, "MD5", "md5.cpp", "md5.hpp")
-
-    s1c, s1h = _read("tlx/digest/sha1.cpp"), _read("tlx/digest/sha1.hpp")
-    T["sha1_IV"] = _iv(s1c, 5, "sha1.cpp")
-    comp = _body(s1c, r"void\s+sha1_compress\s*\([^)]*\)\s*\{", "sha1.cpp")
-    ks = re.findall(r"\+\s*W\[i\]\s*\+\s*(0[xX][0-9a-fA-F]+[uUlL]*)\s*\)", comp)
-    if len(ks) != 4:
-        raise RuntimeError("sha1.cpp: expected 4 round constants in sha1_compress, found %d" % len(ks))
-    T["sha1_K"] = [_num(k) for k in ks]
-    T["sha1_geom"] = _geometry(s1c, s1h, "SHA1", "sha1.cpp", "sha1.hpp")
-
-    s2c, s2h = _read("tlx/digest/sha256.cpp"), _read("tlx/digest/sha256.hpp")
-    T["sha256_K"] = _array(s2c, "K", 64, "sha256.cpp")
-    T["sha256_IV"] = _iv(s2c, 8, "sha256.cpp")
-    T["sha256_geom"] = _geometry(s2c, s2h, "SHA256", "sha256.cpp", "sha256.hpp")
-    for fn, kinds in (("Sigma0", "rrr"), ("Sigma1", "rrr"), ("Gamma0", "rrs"), ("Gamma1", "rrs")):
-        T["sha256_" + fn] = _rots(s2c, fn, kinds, "sha256.cpp")
-
-    s5c, s5h = _read("tlx/digest/sha512.cpp"), _read("tlx/digest/sha512.hpp")
-    T["sha512_K"] = _array(s5c, "K", 80, "sha512.cpp")
-    T["sha512_IV"] = _iv(s5c, 8, "sha512.cpp")
-    T["sha512_geom"] = _geometry(s5c, s5h, "SHA512", "sha512.cpp", "sha512.hpp")
-    for fn, kinds in (("Sigma0", "rrr"), ("Sigma1", "rrr"), ("Gamma0", "rrs"), ("Gamma1", "rrs")):
-        T["sha512_" + fn] = _rots(s5c, fn, kinds, "sha512.cpp")
-
-    hx = _read("tlx/string/hexdump.cpp")
-    for fn, key in (("hexdump", "hex_uc"), ("hexdump_lc", "hex_lc")):
-        body = _body(hx, r"std::string\s+%s\s*\(\s*const\s+void\s*\*\s*const\s+data\s*,\s*size_t\s+size\s*\)\s*\{" % fn, "hexdump.cpp")
-        m = re.search(r"xdigits\[16\]\s*=\s*\{([^{}]*)\}", body)
-        if not m:
-            raise RuntimeError("hexdump.cpp: xdigits table of %s not found" % fn)
-        chars = re.findall(r"'(.)'", m.group(1))
-        if len(chars) != 16:
-            raise RuntimeError("hexdump.cpp: xdigits table of %s has %d entries" % (fn, len(chars)))
-        T[key] = [ord(c) for c in chars]
-
-    sp = _read("tlx/siphash.hpp")
-    plain = _body(sp, r"siphash_plain\s*\([^)]*\)\s*\{", "siphash.hpp")
-    init = re.findall(r"v([0-3])\s*=\s*k([01])\s*\^\s*(0[xX][0-9a-fA-F]+[uUlL]*)\s*;", plain)
-    if [(a, b) for a, b, _ in init] != [("0", "0"), ("1", "1"), ("2", "0"), ("3", "1")]:
-        raise RuntimeError("siphash.hpp: initialisation of v0..v3 in siphash_plain not recognised: %s" % init)
-    T["sip_init"] = [_num(c) for _, _, c in init]
-    mac = re.search(r"#define\s+TLX_SIPCOMPRESS\(\)(.*?)\n\s*\n", plain, flags=re.S)
-    if not mac:
-        raise RuntimeError("siphash.hpp: TLX_SIPCOMPRESS of siphash_plain not found")
-    steps = re.findall(r"(v[0-3])\s*(\+=|\^=|=)\s*(?:rol64\(\s*(v[0-3])\s*,\s*(\d+)\s*\)|(v[0-3]))\s*;", mac.group(1))
-    shape = [(a, op, (r or p)) for a, op, r, _, p in steps]
-    want = [("v0", "+=", "v1"), ("v2", "+=", "v3"), ("v1", "=", "v1"), ("v3", "=", "v3"), ("v1", "^=", "v0"),
-            ("v3", "^=", "v2"), ("v0", "=", "v0"), ("v2", "+=", "v1"), ("v0", "+=", "v3"), ("v1", "=", "v1"),
-            ("v3", "=", "v3"), ("v1", "^=", "v2"), ("v3", "^=", "v0"), ("v2", "=", "v2")]
-    if shape != want:
-        raise RuntimeError("siphash.hpp: TLX_SIPCOMPRESS of siphash_plain has an unexpected statement sequence: %s" % shape)
-    T["sip_rots"] = [int(n) for _, _, r, n, _ in steps if r]
-    if len(T["sip_rots"]) != 6:
-        raise RuntimeError("siphash.hpp: expected 6 rotations in TLX_SIPCOMPRESS")
-    m = re.search(r"v2\s*\^=\s*(0[xX][0-9a-fA-F]+)\s*;", plain)
-    if not m:
-        raise RuntimeError("siphash.hpp: finalisation constant (v2 ^= 0xff) not found")
-    T["sip_final"] = _num(m.group(1))
-    m = re.search(r"last7\s*=\s*static_cast<std::uint64_t>\(len\s*&\s*(0[xX][0-9a-fA-F]+)\)\s*<<\s*(\d+)\s*;", plain)
-    if not m:
-        raise RuntimeError("siphash.hpp: last7 initialisation not found")
-    T["sip_lenmask"], T["sip_lenshift"] = _num(m.group(1)), int(m.group(2))
-    tails = re.findall(r"case\s+(\d+)\s*:\s*last7\s*\|=\s*static_cast<std::uint64_t>\(m\[i\s*\+\s*(\d+)\]\)(?:\s*<<\s*(\d+))?\s*;", plain)
-    tl = [(int(a), int(b), int(c or 0)) for a, b, c in tails]
-    if [a for a, _, _ in tl] != [7, 6, 5, 4, 3, 2, 1]:
-        raise RuntimeError("siphash.hpp: tail switch of siphash_plain not recognised: %s" % tl)
-    T["sip_tail"] = tl
-
-    m = re.search(r"siphash_init\[2\]\s*=\s*\{\s*\{\{\s*([^{}]*?)\}\}\s*,\s*\{\{\s*([^{}]*?)\}\}\s*\}", sp)
-    if not m:
-        raise RuntimeError("siphash.hpp: siphash_init not found")
-    T["sse_init"] = [_num(x) for x in m.group(1).split(",")] + [_num(x) for x in m.group(2).split(",")]
-    m = re.search(r"siphash_final\s*=\s*\{\s*\{\s*([^{}]*?)\}\s*\}", sp)
-    if not m:
-        raise RuntimeError("siphash.hpp: siphash_final not found")
-    T["sse_final"] = [_num(x) for x in m.group(1).split(",")]
-    if len(T["sse_init"]) != 4 or len(T["sse_final"]) != 2:
-        raise RuntimeError("siphash.hpp: siphash_init/siphash_final have an unexpected size")
-    sse = _body(sp, r"siphash_sse2\s*\([^)]*\)\s*\{", "siphash.hpp")
-    mac = re.search(r"#define\s+TLX_SIPCOMPRESS\(\)(.*?)\n\s*\n", sse, flags=re.S)
-    if not mac:
-        raise RuntimeError("siphash.hpp: TLX_SIPCOMPRESS of siphash_sse2 not found")
-    mt = mac.group(1)
-    T["sse_shuffles"] = [tuple(int(x) for x in g) for g in re.findall(r"_MM_SHUFFLE\((\d),\s*(\d),\s*(\d),\s*(\d)\)", mt)]
-    T["sse_shifts"] = [(int(a), int(b) - int(c)) for a, b, c in re.findall(r"_mm_slli_epi64\(\w+,\s*(\d+)\),\s*_mm_srli_epi64\(\w+,\s*(\d+)\s*-\s*(\d+)\)", mt)]
-    if len(T["sse_shuffles"]) != 5 or len(T["sse_shifts"]) != 3:
-        raise RuntimeError("siphash.hpp: SSE2 TLX_SIPCOMPRESS: %d shuffles / %d rotate pairs, expected 5 / 3" % (len(T["sse_shuffles"]), len(T["sse_shifts"])))
-    fs = re.findall(r"_MM_SHUFFLE\((\d),\s*(\d),\s*(\d),\s*(\d)\)", sse[sse.index("#undef") - 400:sse.index("#undef")])
-    if len(fs) != 1:
-        raise RuntimeError("siphash.hpp: final lane fold of siphash_sse2 not recognised")
-    T["sse_final_shuffle"] = tuple(int(x) for x in fs[0])
-    return T
 
 
 def coq_text(T):
@@ -265,12 +332,23 @@ def coq_text(T):
 
 
 def generate(ck):
-    T = parse()
+    T = parse(ck)
+    notes = T.pop("_notes")
+    missing = [k for k, v in T.items() if v is None]
     ck.c14_tables = T
+    ck.c14_translation_notes = notes
+    if missing:
+        # a large table that can be neither located nor executed: keep the generated file of the last successful run
+        # (the correspondence run still decides); nothing is written
+        ck.c14_translation_notes["_kept_previous_generated_file_because_missing"] = missing
+        return {}
     return {"Tables_C14_gen.v": coq_text(T)}
 
 
 GENERATE = [generate]
 
 if __name__ == "__main__":
-    sys.stdout.write(coq_text(parse()))
+    T_ = parse(None)
+    for k_, v_ in sorted(T_.pop("_notes").items()):
+        sys.stderr.write("%-16s %s\n" % (k_, v_))
+    sys.stdout.write(coq_text(T_))
